@@ -98,6 +98,11 @@ CHECKS = {
     category='exploration', design='4/C12',
     text="all 25 registered intermediates x {fully, once} expanded x default and renamed index tuples (names colliding with the definitions' internal names, numbered names) on (2,2)-(3,3) models (t4_2 on (4,4) in the thorough tier): ~140 definition checks, ~630 declared symmetries and ~370 forbidden spin blocks per quick run.",
     note="Trusted: vlib/fock.py RSPT and density series; the einsum transcriptions of t2eri_1..7, A, B, t2sq."),
+ 'C11': dict(
+    technique="runtime monitor: definitional tensor model (every intermediate tensor carries the F_p value of its registered definition) as value oracle across expand_intermediates / factor_intermediates / reduce_expr, incl. expand(factor(.)) = identity",
+    category='exploration', design='4/C11',
+    text="~220 generated expressions per quick run over 15 registered intermediates (20 thorough): (intermediate tensor x free tensor) combinations, fully/once expanded, perturbed expansions (prefactor changed -> mixed-prefactor path, term dropped -> incomplete), random subsets / types / max_order requests; the repository's factor-test expressions; the ADC(2) ph/ph reduce+factor pipeline of the example script (thorough).",
+    note="Trusted: TM evaluator; definitional arrays merged per (tensor name, rank). RE residual intermediates (tensor = placeholder 0) are exercised in C12, not here."),
 }
 
 NOT_YET = {}
